@@ -477,3 +477,33 @@ class PrefixChooser(object):
         self.last = t
         self.picks.append(t.name)
         return t
+
+
+class PreemptAtChooser(object):
+    """fair default policy (the enabled thread that has not run for the longest time goes next) until global step
+    `k`; from then on the thread named `favourite` runs whenever it is enabled (until it is done), the others
+    follow by the default.  This is the schedule "thread X is preempted exactly at its k-th scheduling point and
+    Y runs to completion first"."""
+
+    def __init__(self, k, favourite):
+        self.k, self.favourite = k, favourite
+        self.n = 0
+        self.lastrun = {}
+        self.picks = []
+        self.points = []       # (step, thread name) of the default prefix: candidates for k
+
+    def choose(self, sch, en, timeout):
+        en = sorted(en, key=lambda t: (self.lastrun.get(t.name, -1), t.name))
+        t = None
+        if self.n >= self.k:
+            for x in en:
+                if x.name == self.favourite:
+                    t = x
+        if t is None:
+            t = en[0]
+        if self.n < self.k:
+            self.points.append((self.n, t.name))
+        self.lastrun[t.name] = self.n
+        self.n += 1
+        self.picks.append(t.name)
+        return t
